@@ -223,7 +223,10 @@ class SiteModel:
                 fname = rng.choice(SYSCALL_FUNCS)
             else:
                 fname = rng.choice(["main.main(SB)", "main.f%d(SB)" % fi, "runtime.exit(SB)", "os.(*File).Read(SB)",
-                                    "internal/poll.(*FD).Write(SB)", "syscall.Syscall.func1(SB)", "type..eq.[2]string(SB)"])
+                                    "internal/poll.(*FD).Write(SB)", "syscall.Syscall.func1(SB)", "type..eq.[2]string(SB)",
+                                    # Go symbol names may contain blanks (generic shapes, struct type helpers)
+                                    "type..eq.struct { a int; b string }(SB)", "main.f[go.shape.struct { x int }](SB)",
+                                    "main.(*T[go.shape.*uint8]).wake(SB)"])
             src = rng.choice(["/src/main.go", "/usr/lib/go/src/runtime/sys_linux_amd64.s", "/go/src/x y/z.go"])
             caller = "%s %s" % (fname, src)
             lines.append("TEXT " + caller)
